@@ -4,6 +4,11 @@ patch="$1"; shift
 ROOT="$(cd "$(dirname "$0")/.." && pwd)"
 [ -n "$(git -C "${VERIF_REPO:-/repo}" status --porcelain)" ] && { echo "/repo not clean"; exit 2; }
 git -C "${VERIF_REPO:-/repo}" apply "$patch" || { echo "patch does not apply"; exit 2; }
+if ! (cd "${VERIF_REPO:-/repo}" && GOFLAGS=-mod=mod GOPROXY=off GOSUMDB=off GOTOOLCHAIN=local go build ./... ) >/dev/null 2>&1; then
+  # written against an earlier tree: it applies textually but no longer compiles (a fix changed what it refers to)
+  git -C "${VERIF_REPO:-/repo}" checkout -q -- . ; git -C "${VERIF_REPO:-/repo}" clean -fdq
+  echo "does not compile on the current tree"; exit 3
+fi
 "$ROOT/tools/runall.sh" quick "$@"; r=$?
 git -C "${VERIF_REPO:-/repo}" checkout -q -- . ; git -C "${VERIF_REPO:-/repo}" clean -fdq
 git -C "${VERIF_REPO:-/repo}" clean -fdq 2>/dev/null
